@@ -9,6 +9,14 @@ inductive Kind where
   | text | tagStart | tagEnd | image | figure | video | embed | table
 deriving DecidableEq, Repr, Inhabited
 
+/-- the kinds of element `AddEmbed` receives -/
+inductive MKind where
+  | image | figure | video | embed
+deriving DecidableEq, Repr, Inhabited
+
+def MKind.toKind : MKind → Kind
+  | .image => .image | .figure => .figure | .video => .video | .embed => .embed
+
 def Kind.isTag : Kind → Bool
   | .tagStart | .tagEnd => true
   | _ => false
